@@ -77,7 +77,14 @@ impl Pool {
 
     pub fn new(mode: &str) -> Self {
         let mut by_len: BTreeMap<usize, Vec<Vec<u8>>> = BTreeMap::new();
-        for p in crate::abs::default_packets() {
+        // one default packet of every kind, plus multi-car packets of 256, 508 and 1012 bytes (compressed mode only)
+        let mut all = crate::abs::default_packets();
+        for cars in [9usize, 18, 36] {
+            let mut m = insim::insim::Mci::default();
+            m.info = (0..cars).map(|_| insim::insim::CompCar::default()).collect();
+            all.push(Packet::Mci(m));
+        }
+        for p in all {
             if matches!(p, Packet::Ver(_)) {
                 continue; // version packets belong to classes ver9/verX
             }
